@@ -510,6 +510,18 @@ func (p *partition) newSubscribeLoop(ctx context.Context, groupID, consumerID st
 				}
 				return
 			}
+
+			// The stop offset itself may no longer be in the log, e.g. because
+			// it was compacted away. If the reader has moved past it, the
+			// requested range is exhausted.
+			if stopOffset != waitForNewMessages && offset > stopOffset {
+				s := status.New(codes.ResourceExhausted, "Stop offset reached")
+				select {
+				case errCh <- s:
+				case <-cancel:
+				}
+				return
+			}
 			msgValue := m.Value()
 
 			headers := m.Headers()
